@@ -654,11 +654,28 @@ func (g *decGen) httpFilter() *v3httppb.HttpFilter {
 		fields := map[string]*structpb.Value{}
 		if !g.r.chance(25) {
 			tb := map[string]*structpb.Value{}
-			if !g.r.chance(20) {
-				tb["max_tokens"] = structpb.NewNumberValue(float64(1 + g.r.intn(1000)))
+			// a value of a struct is any JSON value: numbers, but also what hand-written filters contain (quoted numbers,
+			// null, booleans, nested structs) - those read as 0, they never make the decoder fail
+			odd := func(n float64) *structpb.Value {
+				switch g.r.intn(12) {
+				case 0:
+					return structpb.NewStringValue(fmt.Sprint(int(n)))
+				case 1:
+					return structpb.NewNullValue()
+				case 2:
+					return structpb.NewBoolValue(true)
+				case 3:
+					return structpb.NewStructValue(&structpb.Struct{Fields: map[string]*structpb.Value{"value": structpb.NewNumberValue(n)}})
+				case 4:
+					return &structpb.Value{} // no kind at all
+				}
+				return structpb.NewNumberValue(n)
 			}
 			if !g.r.chance(20) {
-				tb["tokens_per_fill"] = structpb.NewNumberValue(float64(g.r.intn(500)))
+				tb["max_tokens"] = odd(float64(1 + g.r.intn(1000)))
+			}
+			if !g.r.chance(20) {
+				tb["tokens_per_fill"] = odd(float64(g.r.intn(500)))
 			}
 			fields["token_bucket"] = structpb.NewStructValue(&structpb.Struct{Fields: tb})
 		}
